@@ -235,6 +235,7 @@ pub fn check_doy(rep: &mut Rep, y: i32, x: f64, s: TimeScale) {
     rep.sample("doy", || format!("from_day_of_year({y}, {}, {:?})", fmt_f64(x), s));
     match guard(|| {
         let e = Epoch::from_day_of_year(y, x, s);
+        crate::props::c05::touch_built(&e);
         (e, e.year_days_of_year(), e.day_of_year(), e.duration_in_year())
     }) {
         Err(p) => rep.fail(&format!("doy/panic/{}", p.class()), None, || format!("from_day_of_year({y},{},{:?}) panicked: {} at {}", x, s, p.msg, p.loc)),
